@@ -13,19 +13,19 @@ _NOTE = ("trusted: pyvc's encoding of Python (cross-checked against CPython on a
          "reported separately in evidence.coverage.bounded and never counted as proved")
 _RT_NOTE = "; A1 (json.dump with sort_keys/indent is a function of the JSON value, json.load inverts it); the variant forest / per-cell container loops are covered by bounded stand-ins only (not counted as proved)"
 CHECKS = [
-    {"id": "C01", "technique": "contract-based deductive verification: pyvc VCs/SMT on the real section writers/readers (layout, reader mapping, round-trip lemma) + bounded stand-in for the variant forest",
+    {"id": "C01", "technique": "contract-based deductive verification: pyvc VCs/SMT on the real section writers/readers (layout, reader mapping, round-trip lemma) and on the real forest recursion Variants.serialize -> Variants.deserialize for a forest of stated shape with symbolic values + bounded stand-in for larger forests and the byte layer",
      "text": "For Compose, BaseProduct and Release sections the real serialize/deserialize are verified path by path: the writer emits exactly the documented key set "
              "(label+final only together, is_layered only when true), the reader computes the documented function of the document (type default, case-fold, bool coercions), and "
-             "reader(writer(x)) == norm(x) for every valid x. The forest recursion is exercised by random forests through the real dumps/loads (bounded).",
-     "note": _NOTE + _RT_NOTE},
-    {"id": "C02", "technique": "contract-based deductive verification: pyvc VCs/SMT on Image.serialize/deserialize (all 15 attributes) and the compose section + bounded stand-in for the per-cell loops",
+             "reader(writer(x)) == norm(x) for every valid x. The forest recursion is exercised by random forests through the real dumps/loads (bounded). Build round: the forest cycle itself is now proved on the forest T->C plus a second top-level U (child plain or layered-product with embedded release; every id, name, type, arch and path symbolic; both registration orders; foreign-arch and empty paths normalised away) by executing the real recursion, add and validate symbolically.",
+     "note": _NOTE + "; A1 (json.dump with sort_keys/indent is a function of the JSON value, json.load inverts it); forest proved for ONE shape (depth 2, two top-level variants), deeper/wider forests and the byte layer bounded only"},
+    {"id": "C02", "technique": "contract-based deductive verification: pyvc VCs/SMT on Image.serialize/deserialize (all 15 attributes), the compose section and the manifest-level cycle Images.serialize -> Images.deserialize through the real add() for manifests of stated shape with symbolic values + bounded stand-in for larger manifests and the byte layer",
      "text": "Image.serialize is proved to write exactly the 13 documented keys plus unified/additional_variants iff unified, and Image.deserialize(serialize(x)) to restore all 15 "
-             "attributes for every valid image (full-domain symbolic fields); the compose section likewise. Cell placement/sorting loops are covered by random manifests (bounded).",
-     "note": _NOTE + _RT_NOTE},
+             "attributes for every valid image (full-domain symbolic fields); the compose section likewise. Cell placement/sorting loops are covered by random manifests (bounded). Build round: the manifest-level cycle is proved on {V1:{A:{I1,I2}}, V2:{A:{I1}}} (same object under two cells) and {V1:{A:{I1}}, V2:{A:{I3}}} (paths may coincide across cells) with every value symbolic, both variant orders and every set order, through the real add() and its identity scan.",
+     "note": _NOTE + "; A1; manifest cycle proved for TWO shapes (2 cells, <= 2 images per cell), larger manifests and the byte layer bounded only"},
     {"id": "C03", "technique": "contract-based deductive verification: pyvc VCs on Rpms/Modules/ExtraFiles serialize+deserialize (payload stored and read back verbatim) and on the add postconditions + AST clause on json.dump arguments",
      "text": "For the three manifest classes serialize followed by deserialize is proved to hand back the very same payload object with header (type, current version) and compose "
-             "section intact and nothing else in the document; the shape of every entry filed by add is the add postcondition (C12); build_file is shown to call json.dump with sorted keys/indent 4.",
-     "note": _NOTE + _RT_NOTE},
+             "section intact and nothing else in the document; the shape of every entry filed by add is the add postcondition (C12); build_file is shown to call json.dump with sorted keys/indent 4. Build round: the same cycle is also proved with STRUCTURAL equality on a payload of fixed shape (2 variants, 2 arches, 2 records, a null leaf; keys and leaves symbolic), so a reader/writer that rebuilds the payload is still decided.",
+     "note": _NOTE + "; A1; structural clause bounded in the SHAPE of the payload; whole-file round trips of random add histories bounded only"},
     {"id": "C09", "technique": "contract-based deductive verification: pyvc VCs/SMT on the real Images.add (identity scan, refusal, placement, write-log frame, Uniq preservation) over manifests with 0-2 symbolic images + identify_image object/dict lemma + AST clause (add is the only writer)",
      "text": "Images.add is executed symbolically (header version, cell keys and all identity attributes symbolic): it refuses exactly a bad arch or, from format 1.1 on, an image equal in "
              "all seven identity attributes to a present one with different checksums; on refusal nothing is written; on success the image is in the addressed cell, every other cell is unchanged and "
@@ -34,18 +34,18 @@ CHECKS = [
     {"id": "C10", "technique": "contract-based deductive verification: arch clauses of the proved Images.add / Rpms.add contracts + pyvc VCs on Images._add_1_1 (src re-filing) + AST clauses (add is the only writer) + bounded down-converted documents",
      "text": "Normal return of Images.add/Rpms.add is proved to imply a known, non-source tree arch, with ValueError and no change otherwise; _add_1_1 is proved to re-file a 'src' image under "
              "every non-src arch of the same variant and nowhere else; no other method stores into the manifests. The rpms 0.3 reader and whole legacy documents are checked against the documented "
-             "mapping on down-converted random manifests (bounded).",
-     "note": _NOTE + "; _add_1_1 proved for a variant with arches {src, A, B} (bounded in number); rpms 0.3 triple loop bounded only"},
+             "mapping on down-converted random manifests (bounded). Build round: Images.deserialize is proved to route a record through _add_1_1 iff the version is <= 1.1 (symbolic version), and Rpms.deserialize_0_3 to re-file the source RPM under every binary arch with its own record's path/sigkey and nothing under 'src' (two binary arches, all values symbolic).",
+     "note": _NOTE + "; _add_1_1 proved for a variant with arches {src, A, B}, the rpms 0.3 reader for two binary arches sharing one source RPM (bounded in number)"},
     {"id": "C12", "technique": "contract-based deductive verification: pyvc VCs/SMT on Rpms.add, Modules.add, ExtraFiles.add over an ARBITRARY symbolic manifest (functional postcondition, write-log frame, refusal) + rx parse of the module UID pattern",
      "text": "Each add is verified on an arbitrary (unbounded) nested manifest: on success the entry sits under the canonical keys (NEVRA / module UID from the proved parser contracts, used "
              "modularly) with the documented value, every write lies on the addressed chain and upper levels are created only when absent (frame), the RPM list is extended; each refusal raises "
              "ValueError/TypeError exactly under the documented conditions and writes nothing. _relative_to strips only on a component boundary.",
      "note": _NOTE + "; manifests assumed tree-shaped with the nested dict/list shape invariant; dump_for_tree's loop is bounded only"},
-    {"id": "C04", "technique": "contract-based deductive verification: pyvc VCs/SMT on the flat treeinfo section writers/readers over an A2 model of ConfigParser (layout, omission rules, round-trip lemma) + bounded stand-in for variant sections, tables and discinfo",
+    {"id": "C04", "technique": "contract-based deductive verification: pyvc VCs/SMT on the flat treeinfo section writers/readers over an A2 model of ConfigParser, on the whole-tree cycle TreeInfo.serialize -> TreeInfo.deserialize for a tree of stated shape with symbolic values, and on the .discinfo writer/reader pair + bounded stand-in for larger trees and the text layer",
      "text": "For the [base_product], [release], [stage2] and [media] sections the real serialize/deserialize are verified path by path against the documented option layout, the "
              "rule that optional sections are omitted only when empty, and reader(writer(x)) == norm(x) for every valid representable x. Variant forests, image tables, checksums, "
-             "platform sets and .discinfo are exercised by random objects through the real dumps/loads (bounded).",
-     "note": _NOTE + "; A2 (ConfigParser set/get/write/read_file incl. the effect of interpolation=None, read from the real constructor call); A5; containers bounded only"},
+             "platform sets and .discinfo are exercised by random objects through the real dumps/loads (bounded). Build round: the whole-tree cycle is proved on {top-level variant of any type with plain or dashed UID, one child of any type, one image table with a mixed-case option, one checksum, stage2 main+inst, media} with all values symbolic (section naming by type, platforms incl. arch, integer timestamp); the .discinfo line writer/reader pair is proved for 'ALL' and 1-2 disc numbers incl. identical second write.",
+     "note": _NOTE + "; A2 (ConfigParser set/get/write/read_file incl. the effect of interpolation=None, read from the real constructor call); A5 (float(repr(x)) = x, repr a decimal numeral, float(str(i)) exact for |i| <= 2^53: the tree cycle is stated for timestamps in that range); tree proved for ONE shape, more variants/platforms/path kinds and the text layer bounded only"},
     {"id": "C16", "technique": "contract-based deductive verification: loop-invariant VCs for the digest loop of the real compute_checksum (fed == content[0:pos]) + pyvc VCs/SMT for Checksums.add, Image.add_checksum and the [checksums] reader/writer",
      "text": "compute_checksum is verified by an inductive invariant over the real while-loop: whatever chunk sizes read() returns, everything fed to the hash object is exactly the file "
              "content in order, for every file size (establish/preserve/exit obligations discharged by SMT). Checksums.add (absolute-path refusal, normalised key, given value or true digest, frame), "
@@ -64,12 +64,12 @@ CHECKS = [
     {"id": "C06", "technique": "contract-based deductive verification: pyvc VCs/SMT -- validate() of every flat metadata class proved equivalent to the documented field rules; section writers proved to write only valid objects + bounded one-field-corruption enumeration for containers",
      "text": "For 15 metadata classes validate() (reflection resolved from the AST and cross-checked against dir()) is proved to return iff the documented field rules hold, to raise only "
              "TypeError/ValueError and to change nothing; the flat section writers are proved to return only for valid objects and to write nothing on refusal. Nested containers are covered by "
-             "an enumeration of every field position x out-of-domain values through the real dumps() (bounded).",
-     "note": _NOTE + "; nested containers (forest, cells, tree tables) bounded only"},
-    {"id": "C07", "technique": "contract-based deductive verification: pyvc VCs/SMT on Header.version_tuple and the flat section readers (required keys, documented mapping, validity of the loaded object, converse) + bounded one-corruption document enumeration",
+             "an enumeration of every field position x out-of-domain values through the real dumps() (bounded). Build round: container-shaped validators (composeinfo/treeinfo Variant with and without parent, treeinfo Images and Checksums) and the composeinfo forest writer (Variants.serialize refuses an invalid child or grand-child) are proved too.",
+     "note": _NOTE + "; remaining nested containers (image cells, tree tables on the write side) bounded only"},
+    {"id": "C07", "technique": "contract-based deductive verification: pyvc VCs/SMT on Header.version_tuple, the flat section readers, the image record reader and the composeinfo/treeinfo variant record readers under ONE corruption each (value replaced by any JSON value / string, or key deleted), and on every validator contract + bounded one-corruption document enumeration",
      "text": "version_tuple is proved to raise exactly for malformed versions; each flat reader is proved to return only when the required keys are present and the loaded object is valid, "
-             "and to reject only documents whose mapped fields are invalid. Whole documents (all seven formats) are covered by one-corruption enumeration through the real loads() (bounded).",
-     "note": _NOTE + "; A1/A2 for the file syntax; nested containers bounded only"},
+             "and to reject only documents whose mapped fields are invalid. Whole documents (all seven formats) are covered by one-corruption enumeration through the real loads() (bounded). Build round: Image.deserialize (each of 15 fields corrupted or deleted), composeinfo Variant.deserialize incl. the release embedded in a layered-product variant, and treeinfo Variants.deserialize (each option of the variant section corrupted or deleted) are proved to return only with the required keys and a valid object; all validator contracts are part of this check.",
+     "note": _NOTE + "; A1/A2 for the file syntax; remaining treeinfo sections, discinfo and whole documents bounded only"},
     {"id": "C13", "technique": "contract-based deductive verification: rx automata decision (greedy-parse inclusion) + pyvc VCs/SMT on the real parse_nvra/_check_nevra",
      "text": "For every string of the legal NVRA language (unbounded length) RPM_NVRA_RE, taken from the tree, captures the five parts at the intended "
              "spans (decided exactly by the rx back end); the bodies of parse_nvra and Rpms._check_nevra are verified path by path against "
@@ -97,13 +97,13 @@ CHECKS.append(
              "instance of the right class, once, and to return the same object afterwards; no candidate or a ValueError from load surfaces as RuntimeError, other errors propagate.",
      "note": _NOTE + "; A4 (os.path.join/exists/listdir); proved for local absolute paths and listings of 0-2 entries (bounded in number); real directory layouts enumerated natively (bounded)"})
 CHECKS.append(
-    {"id": "C11", "technique": "contract-based deductive verification: pyvc VCs/SMT on the real VariantBase.add (validation incl. parent link, duplicate id, refusal leaves the container unchanged) and __getitem__ (lookup by UID from the top / by id from the parent on a depth-3 chain with symbolic ids) + bounded forests for get_variants",
+    {"id": "C11", "technique": "contract-based deductive verification: pyvc VCs/SMT on the real VariantBase.add (validation incl. parent link, duplicate id, refusal leaves the container unchanged) and __getitem__ (lookup by UID from the top / by id from the parent on a depth-3 chain with symbolic ids) and get_variants (chain T->C->G, symbolic ids/types/arches, every filter mode, both values of recursive) + bounded forests for wider shapes",
      "text": "add is executed symbolically for top-level and nested containers: accepted iff the variant satisfies the documented rules with the parent link set (uid = parent uid-id, "
              "arches within the parent's), its id is unused; then it is registered under its id with the parent link; every refusal raises ValueError/TypeError and leaves variants unchanged. "
              "Lookup is proved on chains of depth 3 with symbolic ids, on the complement of one known finding (three nested variants sharing one id). get_variants is bounded.",
      "note": _NOTE + "; bounded in the NUMBER of siblings (0-1) and arches (1) for add; get_variants recursion and cycle detection bounded only; 1 known finding"})
 CHECKS.append(
-    {"id": "C05", "technique": "contract-based deductive verification: pyvc VCs/SMT on every version-dispatching reader with a SYMBOLIC header version (documented branch for every version, both sides of each threshold) and on both Header readers (version syntax, type gate from 1.1, legacy fallback) + bounded fixtures / down-converted documents",
+    {"id": "C05", "technique": "contract-based deductive verification: pyvc VCs/SMT on every version-dispatching reader with a SYMBOLIC header version (documented branch for every version, both sides of each threshold) and on both Header readers (version syntax, type gate from 1.1, legacy fallback), incl. Images.deserialize (_add_1_1 iff <= 1.1), composeinfo Variants.deserialize (top-level selection by UID prefix iff < 1.0) and the rpms 0.3 re-filing + bounded fixtures / down-converted documents",
      "text": "For Compose, Release, Rpms and treeinfo Release/Tree/Media readers the real deserialize is executed with a symbolic, well-formed version string and the branch readers "
              "replaced by loggers: exactly the documented reader runs for every version, followed by validation; the Header readers accept exactly well-formed versions whose type matches from 1.1 on "
              "and keep the document's version; writers emit the current version. Mapping fidelity and idempotence are checked on all 73 shipped fixtures and on down-converted random documents (bounded).",
